@@ -865,17 +865,17 @@ class VM:
 
         elif op == OpCode.FOR_OF_INIT:
             iterable = self.stack.pop()
-            if iterable is UNDEFINED or iterable is NULL:
-                values = []
-            elif isinstance(iterable, JSArray):
+            if isinstance(iterable, JSArray):
                 values = iterable
             elif isinstance(iterable, str):
                 # Strings iterate over characters
                 values = list(iterable)
             elif isinstance(iterable, list):
                 values = list(iterable)
+            elif isinstance(iterable, JSTypedArray):
+                values = [iterable.get_index(i) for i in range(iterable.length)]
             else:
-                values = []
+                raise JSTypeError(f"{self._describe(iterable)} is not iterable")
             self.stack.append(ForOfIterator(values))
 
         elif op == OpCode.FOR_OF_NEXT:
